@@ -172,6 +172,7 @@ ATOMS = ['0', '-1', "'a'", "'a b'", 'None', '1.5', 'True', '[]', '[1, 2]', '{}',
          'Outer.Inner(k=KC(0))', "[KC(1), {'d': KA()}]", 'KO([1])', 'mk(2, b=3)']
 KWNAMES = ['a', 'b', 'x', 'fn', 'ctx', 'args', 'kwargs', 'self', 'value']
 
+PRETTY_CALL_CLASSES = {n for n, v in CALL_CLASSES.items() if v[1] == 'pretty_call'}
 EXPR_NS = {'KC': KC, 'KA': KA, 'KO': KO, 'KD': KD, 'KT': KT, 'M': M, 'Outer': Outer, 'KF': KF, 'mk': mk}
 
 
@@ -280,7 +281,8 @@ def make_instances(spec, inst):
         if vexpr is not None:
             kw_expected[init_name(spec, f['name'])] = value
         if not has_default or value != dv:
-            shown.append((f['name'], value))
+            # the keyword that rebuilds the instance is the __init__ argument name (attrs: the alias)
+            shown.append((init_name(spec, f['name']), value))
     return cls, cls(**kw), cls(**kw_expected), shown
 
 
@@ -426,6 +428,11 @@ def call_inputs(tier, rng):
     out = []
     for name in CALL_CLASSES:
         for pos, kws in lists:
+            # pretty_call(ctx, fn, *args, **kwargs) cannot be *called* with a keyword named 'fn' or 'ctx': Python
+            # raises TypeError in the user's printer before the package is entered.  Such argument lists are outside
+            # the quantifier for the pretty_call classes (they stay in for pretty_call_alt).  Corrected after triage.
+            if name in PRETTY_CALL_CLASSES and any(k in ('fn', 'ctx') for k, _ in kws):
+                continue
             out.append({'part': 'call', 'cls': name, 'args': pos, 'kwargs': kws})
     return out
 
